@@ -88,6 +88,7 @@ func cmdCheck(args []string) int {
 	keep := fs.Bool("keep", false, "keep all query files")
 	timeoutFlag := fs.Int("timeout", 0, "per-obligation timeout override (s)")
 	noEvidence := fs.Bool("no-evidence", false, "do not write the evidence file")
+	failFast := fs.Bool("fail-fast", false, "stop at the first undischarged obligation (development aid; prints one VIOLATION line)")
 	verbose := fs.Bool("v", false, "verbose")
 	loadDir := fs.String("load-dir", "", "directory of the module to load packages from (default: the repository)")
 	patterns := fs.String("patterns", "./...", "comma-separated package patterns")
@@ -304,6 +305,10 @@ func cmdCheck(args []string) int {
 				}
 				if r == nil {
 					r = solve(q, workDir, tag, to, seed)
+				}
+				if *failFast && !(phase1 && len(j.unit.VC.Splits) > 0 && j.obl.Kind != "split") && !j.obl.Cover && r.Status != "unsat" && j.obl.Known == nil && matchKnown(known, *prop, j.obl.Name) == nil {
+					fmt.Printf("VIOLATION property=%s replay=- obligation=%s status=%s (fail-fast: remaining obligations not run) no-failing-input-found\n", *prop, tag, r.Status)
+					os.Exit(1)
 				}
 				r.Unit = j.unit
 				r.Obl = j.obl
